@@ -24,10 +24,12 @@ def run_one(m, tier, keep=False):
     d = tempfile.mkdtemp(prefix="nvmut-")
     try:
         subprocess.run(["rsync", "-a", "--exclude", ".git", "/repo/", d + "/"], check=True)
-        for (path, old, new) in m["edits"]:
+        for e in m["edits"]:
+            path, old, new = e[0], e[1], e[2]
+            every = len(e) > 3 and e[3] == "all"
             p = os.path.join(d, path)
             s = open(p).read()
-            if s.count(old) != 1:
+            if (s.count(old) != 1 and not every) or s.count(old) == 0:
                 return dict(name=m["name"], status="STALE", detail="%s: pattern occurs %d times" % (path, s.count(old)))
             open(p, "w").write(s.replace(old, new))
         for (path, content) in m.get("new_files", []):
